@@ -363,6 +363,8 @@ def build_prelude(root, plan):
     dry.value(root)
     em = Emitter(plan, pre=dry.spans)
     em.value(root)
+    if em.pos > 24:
+        raise Unsupported(f'document of {em.pos} tokens exceeds NTOK')
     return em
 
 
